@@ -65,7 +65,7 @@ pub fn generate(seed: u64, idx: u64) -> Scenario {
     }
     let mut n = rng.range(1, 25);
     let mut typing: Vec<(String, Edit)> = vec![];
-    if rng.chance(50) {
+    if rng.chance(120) {
         // a program written from nothing; requests fired at half-typed states
         let uri = uris[0].clone();
         s.close(&uri);
@@ -77,10 +77,18 @@ pub fn generate(seed: u64, idx: u64) -> Scenario {
             let e = gen::to_lsp_edit(&cur, cur.len()..cur.len(), piece);
             gen::apply(&mut cur, &e);
             s.change(&uri, vec![e]);
-            if rng.chance(120) {
-                let m = *rng.pick(&METHODS);
-                let (l, c) = if rng.chance(600) { crate::h::client::position_at(&cur, cur.len()) } else { gen::request_position(&mut rng, &cur) };
-                s.request(m, &uri, l, c);
+            if rng.chance(250) {
+                // what an editor asks at the cursor, or an arbitrary request at an arbitrary place
+                for _ in 0..rng.range(1, 3) {
+                    if rng.chance(700) {
+                        let (m, l, c) = gen::cursor_request(&mut rng, &cur, cur.len());
+                        s.request(m, &uri, l, c);
+                    } else {
+                        let m = *rng.pick(&METHODS);
+                        let (l, c) = gen::request_position(&mut rng, &cur);
+                        s.request(m, &uri, l, c);
+                    }
+                }
             }
         }
         n = rng.below(4);
@@ -135,14 +143,20 @@ pub fn generate(seed: u64, idx: u64) -> Scenario {
                 for (r, repl) in gen::typing_edits(&mut rng, &text) {
                     let a = gen::snap(&cur, r.start.min(cur.len()));
                     let b = gen::snap(&cur, r.end.min(cur.len())).max(a);
+                    let repl_len = repl.len();
                     let e = gen::to_lsp_edit(&cur, a..b, repl);
                     gen::apply(&mut cur, &e);
                     typing.push((uri.clone(), e.clone()));
                     s.change(&uri, vec![e]);
-                    if rng.chance(150) {
-                        let m = *rng.pick(&METHODS);
-                        let (l, c) = gen::request_position(&mut rng, &cur);
-                        s.request(m, &uri, l, c);
+                    if rng.chance(250) {
+                        if rng.chance(700) {
+                            let (m, l, c) = gen::cursor_request(&mut rng, &cur, a + repl_len);
+                            s.request(m, &uri, l, c);
+                        } else {
+                            let m = *rng.pick(&METHODS);
+                            let (l, c) = gen::request_position(&mut rng, &cur);
+                            s.request(m, &uri, l, c);
+                        }
                     }
                 }
             }
@@ -171,6 +185,14 @@ pub fn generate(seed: u64, idx: u64) -> Scenario {
     for st in s.steps.iter_mut().skip(2) {
         if rng.chance(p) {
             st.wait = true;
+        }
+    }
+    if rng.chance(150) {
+        // clients that send the optional Content-Type header (before or after Content-Length)
+        for st in s.steps.iter_mut() {
+            if rng.chance(600) {
+                st.hdr = 1 + rng.below(2) as u8;
+            }
         }
     }
     let mut sc = Scenario {
